@@ -89,8 +89,15 @@ func convert(res *kit.Result, c Case, src []byte) (out outcome) {
 	var st string
 	var doc *document.Document
 	var saved []byte
-	cv := markdown.NewConverter(co)
-	if c.Entry != "batch" && !warmUp(res, cv, co, c, true) {
+	// the Converter is constructed, and converts its warm-up documents, under the prior options of the case (the
+	// same option set unless the case says otherwise); the judged call passes its own options, and those are the
+	// options of that conversion
+	pco := co
+	if c.Prior != nil {
+		pco = convOpts(*c.Prior)
+	}
+	cv := markdown.NewConverter(pco)
+	if c.Entry != "batch" && !warmUp(res, cv, pco, c, true) {
 		return
 	}
 	dir := ""
@@ -287,6 +294,17 @@ var latexClasses = []struct {
 }
 
 func reuseLabel(res *kit.Result, c Case) {
+	if c.Prior != nil && *c.Prior != c.Opts {
+		res.Label("converter:options-changed")
+		if c.Prior.Tables != c.Opts.Tables {
+			res.Label("converter:options-changed:tables")
+		}
+		if len(c.Warm) > 0 && c.Entry != "batch" {
+			res.Label("converter:options-changed-after-a-call")
+		} else {
+			res.Label("converter:options-changed-since-construction")
+		}
+	}
 	if len(c.Warm) > 0 {
 		res.Label("converter:reused")
 	} else {
@@ -409,6 +427,18 @@ func runAST(c Case) *kit.Result {
 	for k := range ik {
 		res.Label("inl:" + k)
 	}
+	if c.Opts.GFM {
+		for _, b := range c.Doc {
+			eachInl(b, "", func(ctx string, xs []Inl) {
+				if anyInl(xs, func(x Inl) bool { return x.K == "bare" && strings.HasPrefix(x.S, "www.") }) {
+					res.Label("autolink:bare-www+gfm") // a link whose text (www.host) is not its destination (http://www.host)
+					if ctx != "p" {
+						res.Label("autolink:bare-www+gfm-in-heading/item/quote/cell")
+					}
+				}
+			})
+		}
+	}
 	sizeLabels(res, c)
 	clean := true
 	for _, s := range shapes {
@@ -512,7 +542,11 @@ func runAST(c Case) *kit.Result {
 		ks = append(ks, k)
 	}
 	sort.Strings(ks)
-	res.Shape = "ast|" + optLabel(c.Opts) + "|w" + itoa(len(c.Warm)) + "|" + sig(c.Doc) + "|" + strings.Join(ks, ",")
+	prior := ""
+	if c.Prior != nil {
+		prior = "|p" + optLabel(*c.Prior)
+	}
+	res.Shape = "ast|" + optLabel(c.Opts) + prior + "|w" + itoa(len(c.Warm)) + "|" + sig(c.Doc) + "|" + strings.Join(ks, ",")
 	return res
 }
 
@@ -729,7 +763,7 @@ func TestC19(t *testing.T) {
 	}
 	kit.Main(t, kit.Spec[Case]{
 		ID: "C19", Level: "exploration",
-		Rule: "about 35% totality cases (random bytes, random UTF-8, Markdown token soup, one token repeated up to 1500x (thorough 6000x), huge pipe tables, unbalanced $, LaTeX token soup, formula documents (1-5 formulas drawn from a LaTeX command grammar - roots with drawn index, fractions, scripts, big operators with bounds, delimiters, wrappers with optional arguments, environments, unfinished constructs; every argument/index/bound drawn from both letter cases, digits, commands, nested expressions - placed inline, as display, in items, quotes, cells, headings, spans), slices of a document using every construct re-assembled with soup tokens; LaTeXToOMMLString on the same bytes and on every formula body) and 65% fidelity cases (Markdown AST of 1-7 (thorough 1-12) top-level blocks serialised canonically, words from a safe alphabet plus, for about one word in 40, a character-reference look-alike: entity names in the spellings HTML5 has and in spellings it does not have (other letter case, a letter more or less, no semicolon), unknown names, numeric references at and beyond their digit limits and code-point range - the reading resolves exactly what CommonMark 2.5 calls a reference, everything else is literal text; sizes are small in the common case and, with a small probability each, at or beyond 9-12 and 32/64/65/100 (list items, table columns and rows, code lines, top-level blocks, headings of one document) and 255 B-128 KiB for one code line or one run of text (128 KiB and 65 blocks in the thorough tier only; lengths just below and above 256, 1 Ki, 4 Ki, ..., 64 Ki); ATX headings with and without closing hashes; the text written with LF or CRLF line endings, with or without the terminator of the last line), each under a drawn combination of GFM/tables/task lists/math/footnotes/TOC/TOC level and through a drawn entry point: ConvertBytes, ConvertString, ConvertFile, BatchConvert (file entry points are judged on the package they write, read by an independent reader of the main document part, and compared with the package of the document ConvertBytes returns for the same bytes); in 40% of all cases the Converter has first converted 1-2 other documents (link reference, footnote, heading-id, math, table definitions; in a batch: the files before the judged one; expected result unchanged); a fidelity case is judged only if the AST reading equals the reading of goldmark's HTML - block kinds, text, flags, and for list items the list kind (bullet/ordered), nesting depth and task box - (else discarded and counted); lists are judged on the saved package for every entry point (M8: numbering part resolved by an independent reader); 3/4 of the fidelity cases are built only from forms outside every open finding's input class (label judged:unmasked), 1/4 carry one such class. A case that does not return within 15 s (thorough 45 s) ends the process (watchdog) and is replayed by the driver. Non-trivial: fidelity = judged case with >=3 block kinds and >=2 inline kinds; totality = conversion produced >=1 body element. Distinct = option set + block/inline structure signature (fidelity) or class + first tokens + size bucket (totality)",
+		Rule: "about 35% totality cases (random bytes, random UTF-8, Markdown token soup, one token repeated up to 1500x (thorough 6000x), huge pipe tables, unbalanced $, LaTeX token soup, formula documents (1-5 formulas drawn from a LaTeX command grammar - roots with drawn index, fractions, scripts, big operators with bounds, delimiters, wrappers with optional arguments, environments, unfinished constructs; every argument/index/bound drawn from both letter cases, digits, commands, nested expressions - placed inline, as display, in items, quotes, cells, headings, spans), slices of a document using every construct re-assembled with soup tokens; LaTeXToOMMLString on the same bytes and on every formula body) and 65% fidelity cases (Markdown AST of 1-7 (thorough 1-12) top-level blocks serialised canonically, words from a safe alphabet plus, for about one word in 40, a character-reference look-alike: entity names in the spellings HTML5 has and in spellings it does not have (other letter case, a letter more or less, no semicolon), unknown names, numeric references at and beyond their digit limits and code-point range - the reading resolves exactly what CommonMark 2.5 calls a reference, everything else is literal text; sizes are small in the common case and, with a small probability each, at or beyond 9-12 and 32/64/65/100 (list items, table columns and rows, code lines, top-level blocks, headings of one document) and 255 B-128 KiB for one code line or one run of text (128 KiB and 65 blocks in the thorough tier only; lengths just below and above 256, 1 Ki, 4 Ki, ..., 64 Ki); ATX headings with and without closing hashes; the text written with LF or CRLF line endings, with or without the terminator of the last line), each under a drawn combination of GFM/tables/task lists/math/footnotes/TOC/TOC level and through a drawn entry point: ConvertBytes, ConvertString, ConvertFile, BatchConvert (file entry points are judged on the package they write, read by an independent reader of the main document part, and compared with the package of the document ConvertBytes returns for the same bytes); in 40% of all cases the Converter has first converted 1-2 other documents (link reference, footnote, heading-id, math, table definitions; in a batch: the files before the judged one; expected result unchanged); in a third of all cases the Converter was constructed, and has converted those other documents, under options that differ from the ones passed to the judged call in tables / task lists / TOC / TOC level (the fields NewConverter does not consume) - the expected result is that of the options passed to the call; about one plain word in 12, in every inline context (paragraph, heading, list item, quote, table cell), is an address written without angle brackets (www.host, www.host/path, http://, https://, user@host: a GFM extended autolink, plain text without GFM; the visible text is the address as written); a fidelity case is judged only if the AST reading equals the reading of goldmark's HTML - block kinds, text, flags, and for list items the list kind (bullet/ordered), nesting depth and task box - (else discarded and counted); lists are judged on the saved package for every entry point (M8: numbering part resolved by an independent reader); 3/4 of the fidelity cases are built only from forms outside every open finding's input class (label judged:unmasked), 1/4 carry one such class. A case that does not return within 15 s (thorough 45 s) ends the process (watchdog) and is replayed by the driver. Non-trivial: fidelity = judged case with >=3 block kinds and >=2 inline kinds; totality = conversion produced >=1 body element. Distinct = option set + block/inline structure signature (fidelity) or class + first tokens + size bucket (totality)",
 		Gen:  genCase, Run: run, Findings: findings, Fixed: fixedCases,
 		// totality includes termination: a case that has not returned after 15 s (thorough tier, whose inputs are
 		// up to 50 times larger: 45 s; the slowest case of the quick search takes about half a second on a machine
@@ -746,6 +780,7 @@ func TestC19(t *testing.T) {
 			"in ordinary text '&name;' is a character reference only if name is an HTML5 entity name in exactly that spelling, '&#d;' only with 1-7 decimal and '&#xh;' only with 1-6 hex digits (invalid code points read as U+FFFD); every other '&...' is the literal text as typed (CommonMark 2.5); a line ending is LF or CRLF and a last line needs no terminator (CommonMark 2.1); no construct has a size limit",
 			"the document a file entry point yields is the body of the main document part of the package it writes (paragraphs, runs with b/i/strike/rFonts, tables; w:t without xml:space=preserve is trimmed as a consumer would)",
 			"M7: the document depends on the bytes and the options only, so ConvertFile/BatchConvert write the body that ConvertBytes yields for the file's bytes (relative image paths resolve against the file's directory, as documented); for arbitrary byte strings the text of formula runs is left out of that comparison",
+			"the options of a conversion are the ones passed to that call (ConvertBytes/ConvertString/ConvertFile/BatchConvert take them as a parameter; nil means the converter's own): a Converter constructed, or used before, under other values of EnableTables/EnableTaskList/GenerateTOC/TOCMaxLevel yields the document of the options passed now. GFM, footnotes and math select parser extensions in NewConverter; what they mean when they change after construction is stated nowhere, so they never change within a case",
 			"termination is judged with a limit of 15 s per case (thorough tier 45 s; slowest observed case of the quick tier: about 0.5 s on an overloaded machine)",
 		},
 		MustSee: map[string]float64{"kind:bytes": 0.2, "kind:ast": 0.5, "judged": 0.45, "judged:unmasked": 0.3, "blk:tbl": 0.08, "blk:code-fenced": 0.1, "blk:code-indented": 0.04,
@@ -755,6 +790,8 @@ func TestC19(t *testing.T) {
 			"converter:reused": 0.25, "converter:fresh": 0.3, "inl:br": 0.15, "code:indented-fence+tab": 0.03,
 			"text:reference-lookalike-literal": 0.02, "text:character-reference": 0.02, "size:code-line>=64KiB": 0.002, "size:text>=64KiB": 0.0005, "eol:crlf": 0.02, "eol:last-line-unterminated": 0.02,
 			"li:bullet": 0.1, "li:ordered": 0.05, "li:task": 0.04, "li:plain-item-outside-finding-class": 0.12, "li:bullet+ordered-in-one-document": 0.01, "li:two-or-more-lists": 0.03,
-			"size:items>=9": 0.005, "size:columns>=9": 0.005, "size:rows>=9": 0.005, "size:code-lines>=9": 0.005, "size:headings>=9": 0.005, "h:closing-sequence": 0.02},
+			"size:items>=9": 0.005, "size:columns>=9": 0.005, "size:rows>=9": 0.005, "size:code-lines>=9": 0.005, "size:headings>=9": 0.005, "h:closing-sequence": 0.02,
+			"inl:bare": 0.08, "autolink:bare-www+gfm": 0.05, "autolink:bare-www+gfm-in-heading/item/quote/cell": 0.03,
+			"converter:options-changed": 0.15, "converter:options-changed:tables": 0.1, "converter:options-changed-after-a-call": 0.04, "converter:options-changed-since-construction": 0.08},
 	})
 }
